@@ -4,6 +4,8 @@ import (
 	"errors"
 	"fmt"
 	"strings"
+
+	"github.com/BondMachineHQ/BondMachine/pkg/bmline"
 )
 
 // section entry points detection, the pass detects the symbol used as entry point of the section and sign it as metadata.
@@ -108,6 +110,21 @@ func entryPoints(bi *BasmInstance) error {
 						}
 					}
 				}
+			}
+
+			if checkPosition > 0 {
+				// Execution starts at the first instruction of the section: when the
+				// declared entry point is a later one, start with a jump to it.
+				jumpLine := new(bmline.BasmLine)
+				jumpOperation := new(bmline.BasmElement)
+				jumpOperation.SetValue("j")
+				jumpTarget := new(bmline.BasmElement)
+				jumpTarget.SetValue(checkSymbol)
+				jumpTarget.BasmMeta = jumpTarget.SetMeta("type", "symbol")
+				jumpLine.Operation = jumpOperation
+				jumpLine.Elements = []*bmline.BasmElement{jumpTarget}
+				body.Lines = append([]*bmline.BasmLine{jumpLine}, body.Lines...)
+				checkPosition++
 			}
 
 			body.BasmMeta = body.SetMeta("entry", fmt.Sprintf("%d", checkPosition))
